@@ -118,7 +118,7 @@ Qed.
 
 Lemma sim_HELO : forall st a arg v, R st a -> sim st a (command_HELO st arg v).
 Proof.
-  start_sim. unfold command_HELO, apply_verdict, close_exc, just, mk. auto_sim.
+  start_sim. unfold command_HELO, apply_verdict, close_exc, just, mk, mkx, fam_of. auto_sim.
 Qed.
 
 Lemma sim_STARTTLS : forall st a arg ok, R st a -> sim st a (command_STARTTLS st arg ok).
@@ -128,22 +128,22 @@ Qed.
 
 Lemma sim_AUTH : forall st a arg resps out v, R st a -> sim st a (command_AUTH st arg resps out v).
 Proof.
-  start_sim. unfold command_AUTH, apply_verdict, close_exc, just, mk. auto_sim.
+  start_sim. unfold command_AUTH, apply_verdict, close_exc, just, mk, mkx, fam_of. auto_sim.
 Qed.
 
 Lemma sim_MAIL : forall st a arg v, R st a -> sim st a (command_MAIL st arg v).
 Proof.
-  start_sim. unfold command_MAIL, apply_verdict, close_exc, just, mk. auto_sim.
+  start_sim. unfold command_MAIL, apply_verdict, close_exc, just, mk, mkx, fam_of. auto_sim.
 Qed.
 
 Lemma sim_RCPT : forall st a arg v, R st a -> sim st a (command_RCPT st arg v).
 Proof.
-  start_sim. unfold command_RCPT, apply_verdict, close_exc, just, mk. auto_sim.
+  start_sim. unfold command_RCPT, apply_verdict, close_exc, just, mk, mkx, fam_of. auto_sim.
 Qed.
 
 Lemma sim_DATA : forall st a arg it, R st a -> sim st a (command_DATA st arg it).
 Proof.
-  start_sim. unfold command_DATA, get_message_data, session_HAVE_DATA, failure_code, apply_verdict, close_exc, just, mk, with_ed.
+  start_sim. unfold command_DATA, get_message_data, session_HAVE_DATA, failure_code, apply_verdict, close_exc, just, mk, mkx, fam_of, have_data_fam, with_ed.
   auto_sim.
 Qed.
 
@@ -173,8 +173,9 @@ Lemma step_sim : forall st a it, R st a ->
              (o_fin (snd (step st it)) = Continue -> R (fst (step st it)) a').
 Proof.
   intros st a it HR. destruct (sim_handle_command st a it HR) as (a' & Hrun & HR').
-  exists a'. unfold step, finish. destruct (r_exc (handle_command st it)) eqn:Hx; cbn [fst snd o_events o_fin];
-    (split; [exact Hrun|]); intros Hf; try discriminate Hf. apply HR'; reflexivity.
+  exists a'. unfold step, finish. destruct (r_exc (handle_command st it)) eqn:Hx;
+    try destruct (r_fam (handle_command st it)); cbn [fst snd o_events o_fin];
+    (split; [exact Hrun|]); intros Hf; try discriminate Hf; apply HR'; reflexivity.
 Qed.
 
 Lemma trace_cons : forall o os, trace (o :: os) = o_events o ++ trace os.
@@ -235,8 +236,9 @@ Proof.
       split; [reflexivity|discriminate].
     + exists a1. cbn [fst snd]. rewrite trace_cons. cbn [o_events trace flat_map]. rewrite app_nil_r, Hrun.
       split; [reflexivity|discriminate].
-    + exists a1. cbn [fst snd]. rewrite trace_cons. cbn [o_events trace flat_map]. rewrite app_nil_r, Hrun.
-      split; [reflexivity|discriminate].
+    + destruct (r_fam r); cbn [o_fin o_events o_replies fst snd];
+        exists a1; cbn [fst snd]; rewrite trace_cons; cbn [o_events trace flat_map]; rewrite app_nil_r, Hrun;
+        (split; [reflexivity|discriminate]).
 Qed.
 
 Theorem callbacks_in_order : forall cfg vb items,
@@ -275,24 +277,24 @@ Proof.
   intros st a it HR Hbad. use_R.
   unfold step, handle_command, malformed, out_of_order in *.
   destruct (classify (it_line it)) eqn:Hc; cbn in Hbad.
-  - (* EHLO *) unfold command_EHLO, apply_verdict, close_exc, just, mk, finish, allowed, arg_bytes in *; cbn in *.
+  - (* EHLO *) unfold command_EHLO, apply_verdict, close_exc, just, mk, mkx, fam_of, finish, allowed, arg_bytes in *; cbn in *.
     destruct Hbad as [Hbad|Hbad]; brkH Hbad; try err_leaf.
-  - unfold command_HELO, apply_verdict, close_exc, just, mk, finish, allowed, arg_bytes in *; cbn in *.
+  - unfold command_HELO, apply_verdict, close_exc, just, mk, mkx, fam_of, finish, allowed, arg_bytes in *; cbn in *.
     destruct Hbad as [Hbad|Hbad]; brkH Hbad; try err_leaf.
-  - unfold command_STARTTLS, just, mk, finish, allowed_tls in *; cbn in *.
+  - unfold command_STARTTLS, just, mk, mkx, fam_of, finish, allowed_tls in *; cbn in *.
     destruct Hbad as [Hbad|Hbad]; brkH Hbad; try err_leaf.
-  - unfold command_AUTH, apply_verdict, close_exc, just, mk, finish, allowed in *; cbn in *.
+  - unfold command_AUTH, apply_verdict, close_exc, just, mk, mkx, fam_of, finish, allowed in *; cbn in *.
     destruct Hbad as [Hbad|Hbad]; brkH Hbad; try err_leaf.
-  - unfold command_MAIL, check_size, bad_path, bad_size, apply_verdict, close_exc, just, mk, finish, allowed in *; cbn in *.
+  - unfold command_MAIL, check_size, bad_path, bad_size, apply_verdict, close_exc, just, mk, mkx, fam_of, finish, allowed in *; cbn in *.
     destruct Hbad as [Hbad|Hbad]; brkH Hbad; try err_leaf.
-  - unfold command_RCPT, bad_path, apply_verdict, close_exc, just, mk, finish, allowed in *; cbn in *.
+  - unfold command_RCPT, bad_path, apply_verdict, close_exc, just, mk, mkx, fam_of, finish, allowed in *; cbn in *.
     destruct Hbad as [Hbad|Hbad]; brkH Hbad; try err_leaf.
-  - unfold command_DATA, apply_verdict, close_exc, just, mk, finish, allowed in *; cbn in *.
+  - unfold command_DATA, apply_verdict, close_exc, just, mk, mkx, fam_of, finish, allowed in *; cbn in *.
     destruct Hbad as [Hbad|Hbad]; brkH Hbad; try err_leaf.
-  - unfold command_RSET, just, mk, finish in *; cbn in *.
+  - unfold command_RSET, just, mk, mkx, fam_of, finish in *; cbn in *.
     destruct Hbad as [Hbad|Hbad]; [|discriminate]. rewrite Hbad. err_leaf.
   - destruct Hbad; discriminate.
-  - unfold command_QUIT, just, mk, finish in *; cbn in *.
+  - unfold command_QUIT, just, mk, mkx, fam_of, finish in *; cbn in *.
     destruct Hbad as [Hbad|Hbad]; [|discriminate]. rewrite Hbad. err_leaf.
   - err_leaf.
   - err_leaf.
@@ -327,23 +329,24 @@ Lemma reset_step_reset : forall st it,
 Proof.
   intros st it Hr Hrep. unfold step, handle_command, resets in *.
   destruct (classify (it_line it)); try discriminate Hr.
-  - unfold command_EHLO, apply_verdict, close_exc, just, mk, finish in *; cbn in *.
+  - unfold command_EHLO, apply_verdict, close_exc, just, mk, mkx, fam_of, finish in *; cbn in *.
     brkH Hrep; try (unfold tx_empty; cbn; auto); kill_replies Hrep.
-  - unfold command_HELO, apply_verdict, close_exc, just, mk, finish in *; cbn in *.
+  - unfold command_HELO, apply_verdict, close_exc, just, mk, mkx, fam_of, finish in *; cbn in *.
     brkH Hrep; try (unfold tx_empty; cbn; auto); kill_replies Hrep.
-  - unfold command_RSET, just, mk, finish in *; cbn in *.
+  - unfold command_RSET, just, mk, mkx, fam_of, finish in *; cbn in *.
     brkH Hrep; try (unfold tx_empty; cbn; auto); kill_replies Hrep.
 Qed.
 
 Lemma reset_step_data : forall st it,
   classify (it_line it) = CData ->
   In 354 (o_replies (snd (step st it))) ->
-  o_fin (snd (step st it)) <> Crashed ->
+  raised (snd (step st it)) = false ->
   tx_empty (fst (step st it)).
 Proof.
   intros st it Hc Hrep Hfin. unfold step, handle_command in *. rewrite Hc in *.
-  unfold command_DATA, get_message_data, session_HAVE_DATA, failure_code, apply_verdict, close_exc, just, mk, finish, with_ed in *; cbn in *.
-  brkH Hrep; try (unfold tx_empty; cbn; auto); try (exfalso; apply Hfin; reflexivity); kill_replies Hrep.
+  unfold command_DATA, get_message_data, session_HAVE_DATA, failure_code, apply_verdict, close_exc, just, mk, mkx, fam_of, have_data_fam, finish, with_ed in *; cbn in *.
+  unfold raised in Hfin. pose proof (conj Hrep Hfin) as Hboth. clear Hrep Hfin.
+  brkH Hboth; destruct Hboth as [Hrep Hfin]; try (unfold tx_empty; cbn; auto); try discriminate Hfin; kill_replies Hrep.
 Qed.
 
 (* ------------------------------------------------------------------ shape of the replies to one command line *)
@@ -355,10 +358,34 @@ Definition inter_ok (it : item) (o : out) (inter : list N) (c : N) : Prop :=
   | _ => inter = []
   end.
 
-Definition shape (it : item) (o : out) : Prop :=
+Definition replied_shape (it : item) (o : out) : Prop :=
   exists inter c, o_replies o = inter ++ [c] /\ inter_ok it o inter c /\
                   (is_close c = true -> o_fin o <> Continue) /\
                   (o_fin o = Closed -> is_close c = true).
+
+(* the documented exception: a callback of this line was killed (GreenletExit family): the
+   line gets no final reply (only the intermediates already written) and the session is over *)
+Definition killed_shape (it : item) (o : out) : Prop :=
+  has_kill it = true /\ raised o = true /\ o_fin o = Crashed /\
+  (o_replies o = [] \/
+   (classify (it_line it) = CData /\ o_replies o = [354]) \/
+   (classify (it_line it) = CAuth /\ o_replies o = map (fun _ => 334) (it_au_resps it))).
+
+Definition shape (it : item) (o : out) : Prop := replied_shape it o \/ killed_shape it o.
+
+Ltac rw_verdicts :=
+  repeat match goal with
+  | H : it_v1 _ = _ |- _ => rewrite H
+  | H : it_v2 _ = _ |- _ => rewrite H
+  | H : it_v3 _ = _ |- _ => rewrite H
+  end.
+
+Ltac kill_leaf :=
+  unfold killed_shape, has_kill, raised; rw_verdicts; cbn;
+  (split; [reflexivity|]); (split; [reflexivity|]); (split; [reflexivity|]);
+  first [ left; reflexivity
+        | right; left; split; [assumption|reflexivity]
+        | right; right; split; [assumption|reflexivity] ].
 
 Ltac close1 :=
   let Hx := fresh "Hx" in
@@ -376,41 +403,47 @@ Ltac side := first [ reflexivity | left; reflexivity | right; reflexivity
 Ltac cand i := exists i; eexists; split; [reflexivity|]; split; [side|]; split; [close1|close2].
 
 Ltac shape_leaf it :=
-  unfold shape, inter_ok; cbn;
-  match goal with Hc : classify _ = _ |- _ => rewrite ?Hc end;
-  first [ cand (@nil N) | cand [354] | cand [220] | cand (map (fun _ : bytes => 334) (it_au_resps it)) ].
+  unfold shape;
+  first [ left; unfold replied_shape, inter_ok; cbn;
+          match goal with Hc : classify _ = _ |- _ => rewrite ?Hc end;
+          first [ cand (@nil N) | cand [354] | cand [220] | cand (map (fun _ : bytes => 334) (it_au_resps it)) ]
+        | right; kill_leaf ].
 
 Lemma step_shape : forall st it, shape it (snd (step st it)).
 Proof.
   intros st it. unfold step, handle_command.
   destruct (classify (it_line it)) eqn:Hc.
-  - unfold command_EHLO, apply_verdict, close_exc, just, mk, finish; cbn. brk; shape_leaf it.
-  - unfold command_HELO, apply_verdict, close_exc, just, mk, finish; cbn. brk; shape_leaf it.
-  - unfold command_STARTTLS, just, mk, finish; cbn. brk; shape_leaf it.
-  - unfold command_AUTH, apply_verdict, close_exc, just, mk, finish; cbn. brk; shape_leaf it.
-  - unfold command_MAIL, apply_verdict, close_exc, just, mk, finish; cbn. brk; shape_leaf it.
-  - unfold command_RCPT, apply_verdict, close_exc, just, mk, finish; cbn. brk; shape_leaf it.
-  - unfold command_DATA, get_message_data, session_HAVE_DATA, failure_code, apply_verdict, close_exc, just, mk, finish, with_ed; cbn.
+  - unfold command_EHLO, apply_verdict, close_exc, just, mk, mkx, fam_of, finish; cbn. brk; shape_leaf it.
+  - unfold command_HELO, apply_verdict, close_exc, just, mk, mkx, fam_of, finish; cbn. brk; shape_leaf it.
+  - unfold command_STARTTLS, just, mk, mkx, fam_of, finish; cbn. brk; shape_leaf it.
+  - unfold command_AUTH, apply_verdict, close_exc, just, mk, mkx, fam_of, finish; cbn. brk; shape_leaf it.
+  - unfold command_MAIL, apply_verdict, close_exc, just, mk, mkx, fam_of, finish; cbn. brk; shape_leaf it.
+  - unfold command_RCPT, apply_verdict, close_exc, just, mk, mkx, fam_of, finish; cbn. brk; shape_leaf it.
+  - unfold command_DATA, get_message_data, session_HAVE_DATA, failure_code, apply_verdict, close_exc, just, mk, mkx, fam_of, have_data_fam, finish, with_ed; cbn.
     brk; shape_leaf it.
-  - unfold command_RSET, just, mk, finish; cbn. brk; shape_leaf it.
-  - unfold command_NOOP, just, mk, finish; cbn. shape_leaf it.
-  - unfold command_QUIT, just, mk, finish; cbn. brk; shape_leaf it.
-  - unfold command_custom, just, mk, finish; cbn. shape_leaf it.
-  - unfold just, mk, finish; cbn. shape_leaf it.
+  - unfold command_RSET, just, mk, mkx, fam_of, finish; cbn. brk; shape_leaf it.
+  - unfold command_NOOP, just, mk, mkx, fam_of, finish; cbn. shape_leaf it.
+  - unfold command_QUIT, just, mk, mkx, fam_of, finish; cbn. brk; shape_leaf it.
+  - unfold command_custom, just, mk, mkx, fam_of, finish; cbn. shape_leaf it.
+  - unfold just, mk, mkx, fam_of, finish; cbn. shape_leaf it.
 Qed.
 
 (* ------------------------------------------------------------------ run-level structure *)
 Definition out_ok (o : out) : Prop :=
-  exists inter c, o_replies o = inter ++ [c] /\ Forall (fun x => is_close x = false) inter /\
+  (exists inter c, o_replies o = inter ++ [c] /\ Forall (fun x => is_close x = false) inter /\
                   (is_close c = true -> o_fin o <> Continue) /\
-                  (o_fin o = Closed -> is_close c = true).
+                  (o_fin o = Closed -> is_close c = true)) \/
+  (Forall (fun x => is_close x = false) (o_replies o) /\ o_fin o = Crashed).
 
 Lemma Forall_map_334 : forall (l : list bytes), Forall (fun x => is_close x = false) (map (fun _ => 334) l).
 Proof. induction l; cbn; constructor; [reflexivity|assumption]. Qed.
 
 Lemma shape_out_ok : forall it o, shape it o -> out_ok o.
 Proof.
-  intros it o (inter & c & Hrep & Hin & H1 & H2). exists inter, c. repeat split; auto.
+  intros it o [(inter & c & Hrep & Hin & H1 & H2)|(_ & _ & Hf & Hrep)].
+  2:{ right. split; [|exact Hf]. destruct Hrep as [->|[[_ ->]|[_ ->]]];
+      [constructor|repeat constructor|apply Forall_map_334]. }
+  left. exists inter, c. repeat split; auto.
   unfold inter_ok in Hin.
   destruct (classify (it_line it)); try (subst inter; constructor);
     destruct Hin as [->|Hin]; try constructor.
@@ -478,35 +511,46 @@ Proof.
       * rewrite <- Hf. apply fins_ok_single.
 Qed.
 
+(* the connection start: one reply, unless the banner callback itself is killed *)
+Definition banner_shape (vb : verdict) (o : out) : Prop :=
+  (exists c, o_replies o = [c]) \/ (vb = VRaise FKill /\ o_replies o = [] /\ o_fin o = Crashed).
+
 Lemma banner_out_ok : forall vb st,
   let o := snd (finish (command_BANNER vb st)) in
-  (exists c, o_replies o = [c]) /\ out_ok o.
+  banner_shape vb o /\ out_ok o.
 Proof.
-  intros vb st. unfold command_BANNER, apply_verdict, close_exc, mk, finish, out_ok. cbn.
-  brk; (split; [eexists; reflexivity|]); exists (@nil N); eexists; (split; [reflexivity|]); (split; [constructor|]);
-    (split; [close1|close2]).
+  intros vb st. unfold command_BANNER, apply_verdict, close_exc, mk, mkx, fam_of, finish, out_ok, banner_shape. cbn.
+  brk;
+    first [ (split; [left; eexists; reflexivity|]); left; exists (@nil N); eexists; (split; [reflexivity|]);
+            (split; [constructor|]); (split; [close1|close2])
+          | split; [right; repeat split; reflexivity | right; split; [constructor|reflexivity]] ].
 Qed.
 
 Theorem one_reply_per_command : forall cfg vb items outs st f,
   run_session cfg vb items = (outs, st, f) ->
   exists o0 os, outs = o0 :: os /\
-    (exists c, o_replies o0 = [c]) /\
+    banner_shape vb o0 /\
     Forall2 shape (firstn (length os) items) os /\
     (length os <= length items)%nat /\
     (f = Continue -> length os = length items).
 Proof.
   intros cfg vb items outs st f Hrun. unfold run_session in Hrun.
   destruct (cfg_context cfg && cfg_tls_immediately cfg && negb (cfg_tls_imm_ok cfg)).
-  - injection Hrun as <- <- <-. eexists; exists []. cbn. repeat split; try (eexists; reflexivity); try constructor; try lia. discriminate.
+  - injection Hrun as <- <- <-. eexists; exists []. cbn.
+    split; [reflexivity|]. split; [left; eexists; reflexivity|]. repeat split; try constructor; try lia. discriminate.
   - set (st1 := if cfg_context cfg && cfg_tls_immediately cfg then encrypted_state (init_state cfg) else init_state cfg) in *.
-    destruct (banner_out_ok vb st1) as ((c & Hc) & _).
+    destruct (banner_out_ok vb st1) as (Hc & _).
     destruct (finish (command_BANNER vb st1)) as [st2 o] eqn:Hb. cbn [snd] in Hc.
+    set (o' := {| o_replies := o_replies o; o_events := _; o_fin := o_fin o |}) in *.
+    assert (Hc' : banner_shape vb o') by exact Hc.
     destruct (o_fin o) eqn:Hf.
     + destruct (run_loop st2 items) as [[os stf] f1] eqn:Hl. injection Hrun as <- <- <-.
       destruct (run_loop_struct items st2 os stf f1 Hl) as (H1 & H2 & H3 & _ & _).
-      eexists; exists os. repeat split; auto. exists c. exact Hc.
-    + injection Hrun as <- <- <-. eexists; exists []. cbn. repeat split; try constructor; try lia; try discriminate. exists c; exact Hc.
-    + injection Hrun as <- <- <-. eexists; exists []. cbn. repeat split; try constructor; try lia; try discriminate. exists c; exact Hc.
+      exists o', os. split; [reflexivity|]. split; [exact Hc'|]. repeat split; auto.
+    + injection Hrun as <- <- <-. exists o', []. split; [reflexivity|]. split; [exact Hc'|]. cbn.
+      repeat split; try constructor; try lia; try discriminate.
+    + injection Hrun as <- <- <-. exists o', []. split; [reflexivity|]. split; [exact Hc'|]. cbn.
+      repeat split; try constructor; try lia; try discriminate.
 Qed.
 
 Lemma run_session_struct : forall cfg vb items outs st f,
@@ -515,7 +559,7 @@ Proof.
   intros cfg vb items outs st f Hrun. unfold run_session in Hrun.
   destruct (cfg_context cfg && cfg_tls_immediately cfg && negb (cfg_tls_imm_ok cfg)).
   - injection Hrun as <- <- <-. split3; try discriminate.
-    + constructor; [|constructor]. exists (@nil N), 421. cbn. repeat split; try constructor; try discriminate.
+    + constructor; [|constructor]. left. exists (@nil N), 421. cbn. repeat split; try constructor; try discriminate.
     + apply (fins_ok_single {| o_replies := [421]; o_events := []; o_fin := Closed |}).
   - set (st1 := if cfg_context cfg && cfg_tls_immediately cfg then encrypted_state (init_state cfg) else init_state cfg) in *.
     destruct (banner_out_ok vb st1) as (_ & Hok).
@@ -549,7 +593,8 @@ Proof.
   destruct (run_session_struct _ _ _ _ _ _ Hrun) as (Hall & Hfins & _).
   assert (Hok : out_ok o).
   { rewrite Forall_forall in Hall. apply Hall. rewrite Heq. apply in_or_app. right. left. reflexivity. }
-  destruct Hok as (inter & c' & Hrep & Hinter & H1 & _).
+  destruct Hok as [(inter & c' & Hrep & Hinter & H1 & _)|(Hnc & _)].
+  2:{ rewrite Forall_forall in Hnc. rewrite (Hnc c Hin) in Hcl. discriminate. }
   assert (c = c').
   { rewrite Hrep in Hin. apply in_app_or in Hin. destruct Hin as [Hin|[Hin|[]]]; [|auto].
     rewrite Forall_forall in Hinter. rewrite (Hinter c Hin) in Hcl. discriminate. }
@@ -569,13 +614,52 @@ Proof.
   destruct (Hfins pre o [] Heq) as (_ & Hlast). specialize (Hlast eq_refl).
   assert (Hok : out_ok o).
   { rewrite Forall_forall in Hall. apply Hall. rewrite Heq. apply in_or_app. right. left. reflexivity. }
-  destruct Hok as (inter & c & Hrep & _ & _ & H2).
+  destruct Hok as [(inter & c & Hrep & _ & _ & H2)|(_ & Hcr)].
+  2:{ rewrite Hcr in Hlast. discriminate. }
   exists pre, o, inter, c. repeat split; auto.
+Qed.
+
+(* ------------------------------------------------------------------ a callback that raises *)
+Ltac rw_verdicts_in H :=
+  repeat match goal with
+  | E : it_v1 _ = _ |- _ => rewrite E in H
+  | E : it_v2 _ = _ |- _ => rewrite E in H
+  | E : it_v3 _ = _ |- _ => rewrite E in H
+  end.
+
+Ltac raise_leaf :=
+  (split; [let Hy := fresh in intros Hy; discriminate Hy|]);
+  first [ left; eexists; reflexivity
+        | left; exists (@nil N); reflexivity
+        | left; exists [354]; reflexivity
+        | right; unfold has_kill; rw_verdicts; cbn; split; reflexivity ].
+
+Theorem raising_callback : forall st it,
+  raised (snd (step st it)) = true ->
+  o_fin (snd (step st it)) <> Continue /\
+  ((exists inter, o_replies (snd (step st it)) = inter ++ [421]) \/
+   (has_kill it = true /\ o_fin (snd (step st it)) = Crashed)).
+Proof.
+  intros st it Hr. unfold raised, step, handle_command in *.
+  destruct (classify (it_line it)) eqn:Hc.
+  - unfold command_EHLO, apply_verdict, close_exc, just, mk, mkx, fam_of, finish in *; cbn in *. brkH Hr; try discriminate Hr; raise_leaf.
+  - unfold command_HELO, apply_verdict, close_exc, just, mk, mkx, fam_of, finish in *; cbn in *. brkH Hr; try discriminate Hr; raise_leaf.
+  - unfold command_STARTTLS, just, mk, mkx, fam_of, finish in *; cbn in *. brkH Hr; try discriminate Hr; raise_leaf.
+  - unfold command_AUTH, apply_verdict, close_exc, just, mk, mkx, fam_of, finish in *; cbn in *. brkH Hr; try discriminate Hr; raise_leaf.
+  - unfold command_MAIL, apply_verdict, close_exc, just, mk, mkx, fam_of, finish in *; cbn in *. brkH Hr; try discriminate Hr; raise_leaf.
+  - unfold command_RCPT, apply_verdict, close_exc, just, mk, mkx, fam_of, finish in *; cbn in *. brkH Hr; try discriminate Hr; raise_leaf.
+  - unfold command_DATA, get_message_data, session_HAVE_DATA, failure_code, apply_verdict, close_exc, just, mk, mkx, fam_of, have_data_fam, finish, with_ed in *; cbn in *.
+    brkH Hr; try discriminate Hr; raise_leaf.
+  - unfold command_RSET, just, mk, mkx, fam_of, finish in *; cbn in *. brkH Hr; try discriminate Hr; raise_leaf.
+  - discriminate Hr.
+  - unfold command_QUIT, just, mk, mkx, fam_of, finish in *; cbn in *. brkH Hr; try discriminate Hr; raise_leaf.
+  - discriminate Hr.
+  - discriminate Hr.
 Qed.
 
 (* ------------------------------------------------------------------ reset, server/edge agreement *)
 Theorem reset_after_command : forall st it,
-  o_fin (snd (step st it)) <> Crashed ->
+  raised (snd (step st it)) = false ->
   (resets (it_line it) = true /\ o_replies (snd (step st it)) = [250]) \/
   (classify (it_line it) = CData /\ In 354 (o_replies (snd (step st it)))) ->
   tx_empty (fst (step st it)).
@@ -630,7 +714,7 @@ Example reset_hyps_sat :
                  it_data := [104; 105; 13; 10]; it_wire := 7; it_q := QOk; it_au_resps := [];
                  it_au := ARaise; it_tls_ok := true |} in
     classify (it_line it) = CData /\ o_replies (snd (step st it)) = [354; 550] /\
-    o_fin (snd (step st it)) = Continue /\ e_env (ed st) = Some ([115], [[114]]) /\
+    raised (snd (step st it)) = false /\ e_env (ed st) = Some ([115], [[114]]) /\
     resets (it_line (ex_item L_RSET VKeep)) = true /\ o_replies (snd (step st (ex_item L_RSET VKeep))) = [250].
 Proof. do 2 eexists. split; [vm_compute; reflexivity|]. vm_compute. repeat split; reflexivity. Qed.
 
@@ -645,3 +729,17 @@ Example close_code_hyps_sat :
        ex_item L_RSET VKeep] = (outs, st, Closed) /\
     map o_replies outs = [[220]; [250]; [250]; [250]; [354; 421]].
 Proof. do 2 eexists. split; vm_compute; reflexivity. Qed.
+
+(* a MAIL callback that runs into a gevent.Timeout: 421 and the session is closed; one that is
+   killed: no reply *)
+Example raising_callback_hyps_sat :
+  exists outs st,
+    run_session ex_cfg VKeep [ex_item L_EHLO VKeep] = (outs, st, Continue) /\
+    raised (snd (step st (ex_item L_MAIL (VRaise FTimeout)))) = true /\
+    snd (step st (ex_item L_MAIL (VRaise FTimeout))) =
+      {| o_replies := [421]; o_events := [EvCall KMail [115] [] None]; o_fin := Closed |} /\
+    snd (step st (ex_item L_MAIL (VRaise FException))) =
+      {| o_replies := [421]; o_events := [EvCall KMail [115] [] None]; o_fin := Crashed |} /\
+    snd (step st (ex_item L_MAIL (VRaise FKill))) =
+      {| o_replies := []; o_events := [EvCall KMail [115] [] None]; o_fin := Crashed |}.
+Proof. do 2 eexists. split; [vm_compute; reflexivity|]. vm_compute. repeat split; reflexivity. Qed.
